@@ -6,11 +6,9 @@
   Bytes are `Nat`s below 256; every push of a wider value is written `% 256` where the C++
   truncates (`push_back(uint16_t)` into a `vector<uint8_t>`).  `uint16_t` registers wrap
   (`% 65536`).  Outcomes the C++ can reach besides returning: `vector::at` on an empty vector
-  (`atEmpty`, a `std::out_of_range` that nothing catches) and `std::stack::top()` on an empty
-  stack (`stackEmpty`: undefined behaviour until repository fix 3e0ed67, an InputError since) — both explicit so that their absence can be stated.
   (`atEmpty`, a `std::out_of_range` that nothing catches; after the D12-era repairs no path of this
   model produces it) and a loop break / loop end command outside a loop (`stackEmpty`: before
-  repository fix c5dd456 `std::stack::top()` on an empty stack — undefined behaviour, reachable
+  repository fix 3e0ed67 `std::stack::top()` on an empty stack — undefined behaviour, reachable
   with the raw `cmd` platform command; since the fix an `InputError`).
 -/
 import Ctrmml.Generated.Tables
